@@ -29,13 +29,14 @@ r1,r2,r3=rows_for('/verif/seeded'),rows_for('/verif/seeded2'),rows_for('/verif/s
 r4=rows_for('/verif/seeded4')
 r5=rows_for('/verif/seeded5')
 r6=rows_for('/verif/seeded6')
+r7=rows_for('/verif/seeded7')
 c=lambda r: sum(1 for x in r if x[2]=='caught')
 ob=lambda r: [x[0] for x in r if x[2]=='caught' and x[3].startswith('obligation')]
 bd=lambda r: [x[0] for x in r if x[2]=='caught' and x[3].startswith('bounded')]
 text=f'''
 ### 9.6 Seeded property-breaking changes
 
-Six batches of changes were written by independent sub-agents that saw only the property text and a scratch
+Seven batches of changes were written by independent sub-agents that saw only the property text and a scratch
 worktree (never /verif); each compiles, keeps the whole existing test suite green, and comes with a demo test
 on the public API that fails with the change and passes without it.
 
@@ -95,7 +96,23 @@ on the public API that fails with the change and passes without it.
   an embedded tweet), both repaired (§9.4). In this round `MakeAllLinksAbsolute` also got the functional contract that
   round 5 had declared out of reach (anchors and posters of the whole subtree incl. the root are rewritten to `absSpec`),
   on a trusted spec of `dom.SetAttribute` that states the "attribute rows are not shared between nodes" assumption.
-* The harness extensions of all rounds exposed 19 more genuine defects and 6 known findings on the unchanged
+* **Batch 7** (`/verif/seeded7/<id>-f1/`, 20 changes, asked for interactions between two correct-looking functions and
+  for the code no earlier batch had touched) had a **first-run rate of 11 of 20** (C03, C04, C06, C07, C10, C12, C13, C14,
+  C18, C20 by named obligations, C15 by a harness case) — the lowest since batch 2, and instructive: four of the nine
+  misses were in code that IS under contract but where the deciding obligation was not demanded by the property's own
+  check. Answers: `getDocumentTitle` is now a full C01 target (its slice obligation proves in 0.1 s alone but had been
+  recorded as slow inside the module sweep, so the baseline did not demand it; C01); the lead-image filter must leave the
+  element list as it is (C02: the seed moved the promoted figure in front of the first content text); the written
+  commutation arguments of `commute_allow.json` are now bound to a hash of the function's SSA text, so an argument about
+  "what the loop's results are used for" lapses when the function changes (C11: the seed gave the tie-dependent indices a
+  second use); generator dimensions: `rel=next/prev` anchors with hostile targets (C16), print / view-all / share links
+  on the pager's path (C17), links inside the tweet text before the permalink (C19), `picture` / srcset-only images as
+  media kinds (C08), data tables with form controls (C09), embed frames whose query parameter NAMES carry markup (C05).
+  Two attempts did not succeed and are recorded in §9.3: a frame contract for `findLeadImage` (interior `BaseElement`
+  objects of different element types cannot be separated in the heap model) and "the placeholder carries only its three
+  markers" for `Embed.GenerateOutput` (StripAttributes has no frame for nodes outside the stripped subtree). A remark of
+  a seed author led to one more repaired defect (user info in the page URL, §9.4).
+* The harness extensions of all rounds exposed 20 more genuine defects and 6 known findings on the unchanged
   tree (§9.4) — including one (`Figure.GenerateOutput` with a hidden caption) that an earlier fix of this very
   effort had introduced and that the contract on the renderers caught.
 
@@ -129,10 +146,14 @@ Batch 6 (after strengthening): {c(r6)} of 20 reported.
 
 {table(r6)}
 
-Caught by a named contract/engine obligation: {len(ob(r1))} in batch 1, {len(ob(r2))} in batch 2 ({", ".join(x.split("-")[0] for x in ob(r2))}), {len(ob(r3))} in batch 3 ({", ".join(x.split("-")[0] for x in ob(r3))}), {len(ob(r4))} in batch 4 ({", ".join(x.split("-")[0] for x in ob(r4))}), {len(ob(r5))} in batch 5 ({", ".join(x.split("-")[0] for x in ob(r5))}), {len(ob(r6))} in batch 6 ({", ".join(x.split("-")[0] for x in ob(r6))}); only by a bounded harness case: {len(bd(r1))}, {len(bd(r2))} ({", ".join(x.split("-")[0] for x in bd(r2))}), {len(bd(r3))} ({", ".join(x.split("-")[0] for x in bd(r3))}) {len(bd(r4))} ({", ".join(x.split("-")[0] for x in bd(r4))}), {len(bd(r5))} ({", ".join(x.split("-")[0] for x in bd(r5))}) and {len(bd(r6))} ({", ".join(x.split("-")[0] for x in bd(r6))}). This split, and the first-run numbers above (9/20, 11/20, 14/20, 12/20, 17/20), are the honest measure of how far the contracts reach and how well the harnesses generalise: string/regexp rewriting loops, the renderers' text, TreeClone, markup value handling and the pagination *heuristics* (as opposed to their index safety) are defended by enumeration only, and an enumeration only sees the dimensions somebody thought of.
+Batch 7 (after strengthening): {c(r7)} of 20 reported.
+
+{table(r7)}
+
+Caught by a named contract/engine obligation: {len(ob(r1))} in batch 1, {len(ob(r2))} in batch 2 ({", ".join(x.split("-")[0] for x in ob(r2))}), {len(ob(r3))} in batch 3 ({", ".join(x.split("-")[0] for x in ob(r3))}), {len(ob(r4))} in batch 4 ({", ".join(x.split("-")[0] for x in ob(r4))}), {len(ob(r5))} in batch 5 ({", ".join(x.split("-")[0] for x in ob(r5))}), {len(ob(r6))} in batch 6 ({", ".join(x.split("-")[0] for x in ob(r6))}), {len(ob(r7))} in batch 7 ({", ".join(x.split("-")[0] for x in ob(r7))}); only by a bounded harness case: {len(bd(r1))}, {len(bd(r2))} ({", ".join(x.split("-")[0] for x in bd(r2))}), {len(bd(r3))} ({", ".join(x.split("-")[0] for x in bd(r3))}) {len(bd(r4))} ({", ".join(x.split("-")[0] for x in bd(r4))}), {len(bd(r5))} ({", ".join(x.split("-")[0] for x in bd(r5))}), {len(bd(r6))} ({", ".join(x.split("-")[0] for x in bd(r6))}) and {len(bd(r7))} ({", ".join(x.split("-")[0] for x in bd(r7))}). This split, and the first-run numbers above (9/20, 11/20, 14/20, 12/20, 17/20, 11/20), are the honest measure of how far the contracts reach and how well the harnesses generalise: string/regexp rewriting loops, the renderers' text, TreeClone, markup value handling and the pagination *heuristics* (as opposed to their index safety) are defended by enumeration only, and an enumeration only sees the dimensions somebody thought of.
 '''
 d=open('/verif/DESIGN.md').read()
 i=d.index('\n### 9.6 Seeded property-breaking changes'); j=d.index('\n### 9.8 Data-structure invariants')
 d=d[:i]+text.rstrip()+"\n"+d[j:]
 open('/verif/DESIGN.md','w').write(d)
-print(c(r1),c(r2),c(r3),c(r4),c(r5),c(r6))
+print(c(r1),c(r2),c(r3),c(r4),c(r5),c(r6),c(r7))
